@@ -59,8 +59,35 @@ ForeignPinsCrossed(L, w) ==
                              /\ ~OwnPinAt(L, w, L.pins[k].x, L.pins[k].y)
                              /\ \E n \in NetsOf(L, w) : OnPath(L.nets[n].path, <<L.pins[k].x, L.pins[k].y>>)}
 
+\* geometry of the drawn figure of wire w: the polylines of its nets plus the horizontal line that a pass-through marker draws
+\* through its cell (feedback start / stop markers draw nothing, the nets of a feedback path have to meet on their track).
+\* Two pieces belong together when two of their segments touch; bounding boxes are compared, which is exact for the
+\* horizontal and vertical segments of the router and can only err towards "touching" for anything else.
+Max2(a, b) == IF a >= b THEN a ELSE b
+Min2(a, b) == IF a <= b THEN a ELSE b
+SegTouch(p, q, r, t) ==
+    /\ Max2(Min2(p[1], q[1]), Min2(r[1], t[1])) <= Min2(Max2(p[1], q[1]), Max2(r[1], t[1]))
+    /\ Max2(Min2(p[2], q[2]), Min2(r[2], t[2])) <= Min2(Max2(p[2], q[2]), Max2(r[2], t[2]))
+Segs(path) == IF Len(path) = 1 THEN {<<path[1], path[1]>>} ELSE {<<path[k], path[k + 1]>> : k \in 1..(Len(path) - 1)}
+PathsTouch(a, b) == \E x \in Segs(a), y \in Segs(b) : SegTouch(x[1], x[2], y[1], y[2])
+IsPass(L, s) == L.syms[s].kind = "virtual" /\ "vk" \in DOMAIN L.syms[s] /\ L.syms[s].vk = "pass"
+PassLine(y) == <<<<y.x, y.y + (y.h \div 2)>>, <<y.x + y.w, y.y + (y.h \div 2)>>>>
+Pieces(L, w) == {<<"net", n>> : n \in NetsOf(L, w)} \cup {<<"pass", s>> : s \in {s \in Touched(L, w) : IsPass(L, s)}}
+PathOf(L, pc) == IF pc[1] = "net" THEN L.nets[pc[2]].path ELSE PassLine(L.syms[pc[2]])
+RECURSIVE GeoReach(_, _, _, _)
+GeoReach(L, P, S, k) ==
+    IF k = 0 THEN S
+    ELSE GeoReach(L, P, S \cup {b \in P : PathOf(L, b) # <<>> /\ \E a \in S : PathOf(L, a) # <<>> /\ PathsTouch(PathOf(L, a), PathOf(L, b))}, k - 1)
+GeoConnected(L, w) == LET P == Pieces(L, w) IN P = {} \/ GeoReach(L, P, {CHOOSE a \in P : TRUE}, Cardinality(P)) = P
+\* every real pin of the wire lies on the drawn figure
+PinsOffFigure(L, w) ==
+    {k \in 1..Len(L.pins) : L.pins[k].wire = w /\ ~\E pc \in Pieces(L, w) : PathOf(L, pc) # <<>> /\ Len(PathOf(L, pc)) > 1
+                                                                                  /\ OnPath(PathOf(L, pc), <<L.pins[k].x, L.pins[k].y>>)}
+
 WireFindings(N, L, w) ==
     (IF ~Connected(L, w) THEN {<<"wire-figure-not-connected", w>>} ELSE {})
+    \cup (IF Connected(L, w) /\ ~GeoConnected(L, w) THEN {<<"drawn-figure-in-pieces", w>>} ELSE {})
+    \cup (IF PinsOffFigure(L, w) # {} THEN {<<"pin-off-the-drawn-figure", w>>} ELSE {})
     \cup (IF TruePins(N, w) \ DrawnPins(L, w) # {} THEN {<<"pin-not-touched", w>>} ELSE {})
     \cup (IF DrawnPins(L, w) \ TruePins(N, w) # {} THEN {<<"foreign-pin-touched", w>>} ELSE {})
     \cup (IF ForeignPinsCrossed(L, w) # {} THEN {<<"routed-through-foreign-pin", w>>} ELSE {})
